@@ -853,7 +853,7 @@ namespace svmon
         long c = cands[rng.below (sizeof cands / sizeof cands[0])];
         if (c >= 0 && c <= limit) return static_cast<int> (c);
       }
-      return static_cast<int> (rng.below (4));
+      { int c = static_cast<int> (rng.below (4)); return c <= limit ? c : (limit > 0 ? limit : 0); }
     }
 
     int pick_size (Rng& rng, const Snap& s, int limit)
@@ -865,7 +865,7 @@ namespace svmon
         long c = cands[rng.below (sizeof cands / sizeof cands[0])];
         if (c >= 0 && c <= limit) return static_cast<int> (c);
       }
-      return static_cast<int> (rng.below (6));
+      { int c = static_cast<int> (rng.below (6)); return c <= limit ? c : (limit > 0 ? limit : 0); }
     }
 
     int pick_it (Rng& rng)
